@@ -616,8 +616,66 @@ def _space(name, cases, rule, bound, nt):
     return Space(name, RUN, cases, oracle="table", nontrivial=nt, rule=rule, bound=bound, batch=64)
 
 
+# every switch shape: 0..3 clauses over {default, matching case, other case} x {logs, logs and breaks}, one of them carrying the exit
+# under test, inside every kind of enclosing statement (a shape with only a default clause, or none at all, is still a switch:
+# an unlabelled break ends it and nothing else)
+SW_CLAUSES = [("default", "default:"), ("hit", "case 1:"), ("miss", "case 5:")]
+SW_ENCLOSINGS = {
+    "forof": "var r = []; L: for (var x of [1, 2, 3]) { __out(['it', x]); %s __out('after-switch'); } __out('after-loop'); 0",
+    "while": "var i = 0; L: while (i < 3) { i++; __out(['it', i]); %s __out('after-switch'); } __out('after-loop'); 0",
+    "function": "function f() { L: { __out('in'); %s __out('after-switch'); } return 'ret-end' } __out(f()); 0",
+    "callback": "[1, 2].forEach(function (x) { __out(['cb', x]); L: for (var k = 0; k < 2; k++) { %s __out('after-switch'); } }); 0",
+    "nested-switch": "L: for (var x of [1, 2]) { switch (2) { case 2: __out('outer-case'); %s __out('after-switch'); case 3: __out('outer-fall'); } __out('after-outer'); } 0",
+}
+SW_EXITS = {"none": "", "break": "break;", "continue": "continue;", "break-label": "break L;", "continue-label": "continue L;", "return": "return 'ret';",
+            "throw-caught": "try { throw 1 } catch (e) { __out('caught'); break; }", "break-in-if": "if (true) { break; }", "break-in-block": "{ __out('blk'); break; }"}
+
+
+def switch_shape_cases():
+    out = []
+    variants = [(cn, ct, br) for cn, ct in SW_CLAUSES for br in (False, True)]
+    shapes = [()]
+    for n in (1, 2, 3):
+        for seq in itertools.product(variants, repeat=n):
+            if sum(1 for v in seq if v[0] == "default") <= 1:
+                shapes.append(seq)
+    for seq in shapes:
+        for carrier in range(max(1, len(seq))):
+            for en, ex in SW_EXITS.items():
+                if not seq and en != "none":
+                    continue
+                clauses = []
+                for i, (cn, ct, br) in enumerate(seq):
+                    body = "__out('%s%d');" % (cn, i)
+                    if i == carrier and ex:
+                        body += " " + ex + " __out('%s%d-rest');" % (cn, i)
+                    if br:
+                        body += " break;"
+                    clauses.append(ct + " " + body)
+                sw = "switch (1) { %s }" % " ".join(clauses)
+                for wn, wrap in SW_ENCLOSINGS.items():
+                    if en == "return" and wn not in ("function", "callback"):
+                        continue
+                    if en in ("continue", "continue-label") and wn == "function":
+                        continue
+                    name = "+".join("%s%s" % (cn, "b" if br else "") for cn, ct, br in seq) or "empty"
+                    src = "try { %s } catch (e) { __out(['escaped', e && e.name ? e.name : e]); }" % (wrap % sw)
+                    out.append(("sw/%s/%s@%d/%s :: %s" % (name, en, carrier, wn, src), {"src": src}))
+    seen, uniq = set(), []
+    for c in out:
+        if c[1]["src"] not in seen:
+            seen.add(c[1]["src"])
+            uniq.append(c)
+    return uniq
+
+
 def core_spaces():
     return [
+        _space("c05_switch_shapes", switch_shape_cases,
+               "every switch of 0..3 clauses over {default, matching case, non-matching case} x {falls through, ends with break} (at most one "
+               "default), one clause carrying one of 9 exits (none, break, continue, labelled break / continue, return, break in a catch / if / "
+               "block), inside a for-of loop, a while loop, a function with a labelled block, a loop in a callback, and an outer switch case",
+               "259 shapes x clause x 9 exits x 5 enclosings", nontrivial_log),
         _space("c05_skeleton2", skeleton2_cases,
                "depth-2 skeletons: %d outer x %d inner constructs x 9 exit kinds x 3 exit positions x 8 call contexts, "
                "minus ECMAScript early errors; non-trivial = reference log has >= 2 entries and (unless exit 'none') "
